@@ -142,7 +142,7 @@ PROPS.update({
         "level": "proof", "design_ref": "DESIGN.md section 5 C13",
         "assumptions": ["the text grammar (synth/parser.rs, chomp parse! macros over an external Input trait) is outside the verifier's reach: which strings are accepted and 'no string panics' are NOT decided by contracts; they are exercised only by the auxiliary differential replay of RR::from_string against a reference written from the grammar",
                         "two live Vec allocations fit in the address space together (axiom_two_vecs, used for the capacity hint of SOA::build)"],
-        "level_text": "every typed builder (RR::new, new_question, A, AAAA, NS, CNAME, PTR, TXT, MX, SOA, DS) is proved to return exactly rr_wire(fields) -- owner name, type, class, TTL, RDLENGTH, RDATA per RFC 1035 -- and to fail exactly when a name does not encode or the data is too long; proof level covers the builders only. The TEXT front end (synth/parser.rs, chomp parser combinators behind macros) is outside the verifier's reach: no contract is placed on it, and the clauses 'bad text yields an error', 'whitespace / case-insensitive keywords / decimal escapes' and 'no string makes synthesis panic' are decided only by the differential replay against a hand-written reference grammar (replay/src/names.rs: ref_text, ref_txt) that decides the nine record types, the TTL / class / type fields, TXT strings with escapes, address and numeric fields, and ABSTAINS on host names its own label grammar is unsure about and on the embedded-IPv4 notation of IPv6 addresses. Seeded changes show what that means: of eighteen changes made to this front end in five rounds, eleven passed with exit 0 until the reference or the generator was extended (the rate fell from six of nine to two of five as the reference grew); after the extensions all eighteen are reported and 48000 generated texts raise nothing on the unchanged tree. The reference now decides: the host-name fields (label grammar of the text parser), TTL / class / type keyword (incl. a keyword glued to its data), vertical whitespace (an error except inside SOA), A / AAAA / MX / SOA / DS fields with their ranges and shapes, TXT strings",
+        "level_text": "every typed builder (RR::new, new_question, A, AAAA, NS, CNAME, PTR, TXT, MX, SOA, DS) is proved to return exactly rr_wire(fields) -- owner name, type, class, TTL, RDLENGTH, RDATA per RFC 1035 -- and to fail exactly when a name does not encode or the data is too long; proof level covers the builders only. The TEXT front end (synth/parser.rs, chomp parser combinators behind macros) is outside the verifier's reach: no contract is placed on it, and the clauses 'bad text yields an error', 'whitespace / case-insensitive keywords / decimal escapes' and 'no string makes synthesis panic' are decided only by the differential replay against a hand-written reference grammar (replay/src/names.rs: ref_text, ref_txt) that decides the nine record types, the TTL / class / type fields, TXT strings with escapes, address and numeric fields, and ABSTAINS on host names its own label grammar is unsure about and on the embedded-IPv4 notation of IPv6 addresses. Seeded changes show what that means: of twenty-two changes made to this front end in six rounds, fourteen passed with exit 0 until the reference or the generator was extended (two of five in the fifth round; three of four in the sixth, whose authors were asked for changes a differential tester is least likely to try); after the extensions all twenty-two are reported and 48000 generated texts raise nothing on the unchanged tree. The reference now decides: the host-name fields (label grammar of the text parser), TTL / class / type keyword (incl. a keyword glued to its data), vertical whitespace (an error except inside SOA), A / AAAA / MX / SOA / DS fields with their ranges and shapes, TXT strings",
         "technique": "Verus byte-exact postconditions on the extracted builders (unit U5); grammar clauses: differential replay only (stated)",
     },
 })
